@@ -12,7 +12,7 @@ add("C04", "exploration", "differential testing SLG vs recursive solver on gener
     "Each generated goal solved by both solvers; the property's compatibility relation is the oracle (no reference semantics needed). Programs from the Horn / auto / environment / associated-type / built-in generators, plus generated goals with const, lifetime and int/float unknowns over a fixed program compared at the text level.",
     "Programs are only lowered (not coherence/WF-checked), as the property states; lifetimes erased before comparing substitutions.", "DESIGN.md 2/C04")
 add("C09", "exploration", "generated-input search for non-termination/panics under a deterministic work budget (cfg hook counter)",
-    "Generated growing/cyclic programs, all goal forms, default and reduced limits, solve and solve_multiple: every call must return without panic within 10x the budget that 3x covers the largest honest solve. Cannot prove termination; refutes it within the budget.",
+    "Generated growing/cyclic programs, all goal forms, default and reduced limits, solve and solve_multiple, plus text-level goals with lifetime / const unknowns and hypotheses over a fixed program: every call must return without panic within 10x the budget that 3x covers the largest honest solve. Cannot prove termination; refutes it within the budget.",
     "'bounded work' = work-counter budget (goal/type folds, SLG loop iterations, recursive solve_goal entries); recursive solver without cache and on growing programs not judged for budget.", "DESIGN.md 2/C09")
 add("C10", "exploration", "stateful property-based testing: generated goal histories on one solver vs fresh solvers (differential)",
     "Histories with repetitions on one solver instance per configuration; every answer must equal the fresh-solver answer; recursive cache on/off must agree.",
@@ -21,13 +21,13 @@ add("C11", "fault_enumeration", "enumeration of every interruption schedule of g
     "For each generated (program, goal, solver): callback returns false at the k-th call for every k (cap 48) and always; interrupted answer must be the full answer or a compatible Ambiguous; all follow-up solves equal fresh answers.",
     "K measured per case; schedules beyond 48 only via 'always false'.", "DESIGN.md 2/C11")
 add("C12", "fault_enumeration", "fault injection at every database call of generated cases (panic), then differential vs fresh solver",
-    "Delegating database panics at the n-th call for every n of a clean solve (cap 120/400), optional second fault; later solves on the same instance must not panic and must equal fresh answers.",
+    "Delegating database panics at the n-th call for every n of a clean solve (cap 120/400), optional second fault; later solves on the same instance must not panic and must equal fresh answers. A quarter of the programs have mixed inductive/coinductive cycles; a no-fault baseline of the same history separates panic damage from history dependence.",
     "Fault database is harness code; SLG wrong answers after a mid-search panic are a recorded known finding.", "DESIGN.md 2/C12")
 add("C13", "exploration", "metamorphic testing: generated item / where-clause permutations of generated programs",
     "Original and permuted program text both lowered by chalk; rendered answers per solver must be identical for goals that stay within size limits by construction.",
     "Goals judged only on non-growing programs (and finite-answer programs for goals with unknowns).", "DESIGN.md 2/C13")
 add("C14", "exploration", "property-based testing of InferenceTable::relate against an independent reference unifier (Robinson + universes + kinds)",
-    "Generated relate histories; success equivalence, MGU equality via canonical state of all variables, residual kinds/universes, lifetime obligations, covariant re-relation.",
+    "Generated relate histories; success equivalence, MGU equality via canonical state of all variables, residual kinds/universes, lifetime obligations, covariant re-relation incl. universe soundness of the intermediate state.",
     "Reference unifier in harness/src/ir.rs is trusted; no TyKind::Error.", "DESIGN.md 2/C14")
 add("C15", "exploration", "property-based testing: state invariant over generated relate histories + order symmetry",
     "Canonical state of all variables before/after every failing relate must be identical; relate(a,b) ok iff relate(b,a) ok.",
@@ -63,7 +63,7 @@ add("C08", "exploration", "property-based testing against a rule table for the b
     "Generated programs with Sized / Copy / Clone / Tuple / FnPtr lang items and nested built-in types; closed goals compared with a rule table written from the property and the chalk book.",
     "Rule table (harness/src/builtin.rs) trusted; user traits on dyn types other than `dyn Tr: Tr` not judged.", "DESIGN.md 2/C08")
 add("C18", "exploration", "property-based testing: one-sided implication between real unification and the could-match pre-filter",
-    "Generated (clause conclusion, goal) pairs and generated programs: whenever InferenceTable::relate unifies them, could_match / impls_for_trait must not have filtered the clause out.",
+    "Generated (clause conclusion, goal) pairs and generated programs (each goal with its type unknowns as general, integer and float variables): whenever InferenceTable::relate unifies them, could_match / impls_for_trait must not have filtered the clause out.",
     "Only the soundness direction of the filter is a property; precision is not judged.", "DESIGN.md 2/C18")
 add("C19", "exploration", "property-based testing of the coherence checker for totality and priority consistency against the reference evaluator",
     "Generated impl sets with controlled header relations: coherence() never panics under either solver; on Ok, overlapping impls have distinct priorities ordered by specialisation over the bounded universe.",
